@@ -149,7 +149,9 @@ def boundaryDocs : List Json :=
     .obj [([0x61], one), ([0x62, 0x62], .str [0x78]), ([0x63, 0x63, 0x63], one)] ] ++
   strideSizes.map flatObj ++ strideSizes.map flatArr ++
   [ .arr [flatObj 17, flatObj 33, flatArr 33], .obj [([0x61], flatObj 32), ([0x62], flatArr 64)],
-    .arr [.num (.fin false 0 0 [1]) true, .num (.fin true 1 70 [1, 2]) false] ]
+    .arr [.num (.fin false 0 0 [1]) true, .num (.fin true 1 70 [1, 2]) false],
+    -- the implementation's limit (count > 10000 → nil): exactly at it, and one beyond (known finding J10K)
+    .arr (List.replicate 10000 .null), .arr (List.replicate 10001 .null) ]
 
 /-- which stride crossings a document exercises: (key half, value half, array, has empty container, depth) -/
 structure DocStats where
@@ -159,6 +161,7 @@ structure DocStats where
   empty : Bool := false
   nums : Nat := 0
   depth : Nat := 0
+  big : Bool := false          -- some container has more than 10 000 elements / pairs
 deriving Inhabited
 
 partial def docStats : Json → DocStats
@@ -166,7 +169,7 @@ partial def docStats : Json → DocStats
     let cs := xs.map docStats
     { xk := cs.any (·.xk), xv := cs.any (·.xv), xa := xs.length ≥ 33 || cs.any (·.xa),
       empty := xs.isEmpty || cs.any (·.empty), nums := (cs.map (·.nums)).sum,
-      depth := 1 + (cs.map (·.depth)).foldl max 0 }
+      depth := 1 + (cs.map (·.depth)).foldl max 0, big := xs.length > 10000 || cs.any (·.big) }
   | .obj kvs =>
     let cs := kvs.map fun kv => docStats kv.2
     let n := kvs.length
@@ -174,7 +177,7 @@ partial def docStats : Json → DocStats
       -- some value entry has a combined index that is a positive multiple of 32
       xv := (n ≥ 1 && (2 * n - 1) / 32 > (n - 1) / 32) || cs.any (·.xv),
       xa := cs.any (·.xa), empty := kvs.isEmpty || cs.any (·.empty), nums := (cs.map (·.nums)).sum,
-      depth := 1 + (cs.map (·.depth)).foldl max 0 }
+      depth := 1 + (cs.map (·.depth)).foldl max 0, big := n > 10000 || cs.any (·.big) }
   | .num _ _ => { nums := 1 }
   | _ => {}
 
